@@ -2,7 +2,7 @@
 From Coq Require Import Qround.
 From DA Require Import Prelude NDArray Array PyRT.
 From DA.Model Require Import Value Reshape SliceSpec Indexing Align.
-From DA.Proofs Require Import C10_proofs C01_proofs C03_proofs C07_proofs.
+From DA.Proofs Require Import C10_proofs C01_proofs C03_proofs C07_proofs C17_proofs C01_complete C07_methods.
 Open Scope nat_scope.
 
 (* reindex_axis(new, axis) with the default method: the axis becomes exactly the new labels (same
@@ -75,6 +75,26 @@ Theorem C07_promotion : cast_kind KI KF = KF /\ cast_kind KF KF = KF /\ cast_kin
 Proof. exact fill_promotes_int. Qed.
 Print Assumptions C07_promotion.
 
+(* method = 'left' / 'right': the position taken for the k-th new label is searchsorted(side) on the argsorted labels,
+   clipped (C07_method_position), and that position carries the least label not below the new label - at or after it
+   for 'left', strictly after it for 'right' - when there is one, the greatest label otherwise (C07_method_neighbour) *)
+Theorem C07_method_position : forall side ls vs idxs k,
+  ls <> [] -> locate_many_raw side ls vs = Ok idxs -> k < List.length vs ->
+  nth k idxs 0 = nth (Nat.min (ss_count side (map (lab ls) (argsort ls)) (nth k vs LNone)) (List.length ls - 1)) (argsort ls) 0.
+Proof. exact locate_many_raw_nth. Qed.
+Print Assumptions C07_method_position.
+Theorem C07_method_neighbour : forall side ls v,
+  ls <> [] ->
+  let isort := argsort ls in
+  let S := map (lab ls) isort in
+  let c := Nat.min (ss_count side S v) (List.length ls - 1) in
+  let p := nth c isort 0 in
+  p < List.length ls /\
+  ((exists j, j < List.length ls /\ below side v (lab ls j) = false) ->
+     below side v (lab ls p) = false /\ forall j, j < List.length ls -> below side v (lab ls j) = false -> label_le (lab ls p) (lab ls j) = true) /\
+  ((forall j, j < List.length ls -> below side v (lab ls j) = true) -> forall j, j < List.length ls -> label_le (lab ls j) (lab ls p) = true).
+Proof. exact locate_raw_neighbour. Qed.
+Print Assumptions C07_method_neighbour.
 Definition ex_a : darr :=
   Arr [Ax "t" KI [L_ 3; L_ 1; L_ 2] [] []] [3] KI [N_ 10; N_ 20; N_ 30] [("units", MStr "K")].
 Example C07_nonvacuous :
